@@ -39,14 +39,15 @@ func TestMain(m *testing.M) {
 
 // Case is one cancellation scenario.
 type Case struct {
-	K      int    `json:"in_flight"` // tasks in flight when the cancel arrives (0..4)
-	W      int    `json:"waiting"`   // stages still waiting (scheduler only, needs K >= 1)
-	Phase  string `json:"phase"`     // before-run | before-hook | command | second-command | burst | after-finish
-	Double string `json:"double"`    // once | twice-seq | twice-conc
-	Via    string `json:"via"`       // runner | scheduler | condition (unevaluable stage condition cancels the run)
-	BurstM int    `json:"burst_marker,omitempty"`
-	CondAt int    `json:"cond_at,omitempty"` // which stage carries the bad condition (condition only)
-	DelayMs int   `json:"delay_ms,omitempty"` // extra wait before the cancel
+	K        int    `json:"in_flight"` // tasks in flight when the cancel arrives (0..4)
+	W        int    `json:"waiting"`   // stages still waiting (scheduler only, needs K >= 1)
+	Phase    string `json:"phase"`     // before-run | before-hook | command | second-command | burst | after-finish
+	Double   string `json:"double"`    // once | twice-seq | twice-conc
+	Via      string `json:"via"`       // runner | scheduler | condition (unevaluable stage condition cancels the run)
+	BurstM   int    `json:"burst_marker,omitempty"`
+	CondAt   int    `json:"cond_at,omitempty"`  // which stage carries the bad condition (condition only)
+	DelayMs  int    `json:"delay_ms,omitempty"` // extra wait before the cancel
+	Stubborn bool   `json:"stubborn,omitempty"` // the long command ignores SIGINT: it dies only after the interpreter's 2 s kill grace
 }
 
 func (c Case) canon() string { b, _ := json.Marshal(c); return string(b) }
@@ -76,6 +77,9 @@ func scenario(c Case, dir string, scale int) string {
 	pids := filepath.Join(dir, "pids")
 	mk := func(i int) *task.Task {
 		long := fmt.Sprintf("printf 'S:%d\\n' >> %s; sh -c 'echo $$ >> %s; exec sleep 30'; printf 'E:%d\\n' >> %s", i, log, pids, i, log)
+		if c.Stubborn {
+			long = fmt.Sprintf("printf 'S:%d\\n' >> %s; sh -c 'trap \"\" INT; echo $$ >> %s; exec sleep 30'; printf 'E:%d\\n' >> %s", i, log, pids, i, log)
+		}
 		tk := task.NewTask()
 		tk.Name = fmt.Sprint("t", i)
 		switch c.Phase {
@@ -144,6 +148,22 @@ func scenario(c Case, dir string, scale int) string {
 			r.Cancel()
 		}
 	}
+	// whenever a Cancel call returns, the commands it interrupted must be gone: checked at the return of
+	// every call, also of the one that returns first when two overlap
+	var earlyMu sync.Mutex
+	early := ""
+	checkGone := func(which string) {
+		for _, p := range readLines(pids) {
+			pid, _ := strconv.Atoi(p)
+			if !waitFor(func() bool { return syscall.Kill(pid, 0) != nil }, 150*time.Millisecond) {
+				earlyMu.Lock()
+				if early == "" {
+					early = fmt.Sprintf("%s Cancel call returned while process %d of an interrupted command was still running", which, pid)
+				}
+				earlyMu.Unlock()
+			}
+		}
+	}
 	doCancel := func() string {
 		done := make(chan struct{})
 		go func() {
@@ -151,8 +171,13 @@ func scenario(c Case, dir string, scale int) string {
 			case "twice-conc":
 				var w2 sync.WaitGroup
 				w2.Add(2)
-				go func() { defer w2.Done(); cancel() }()
-				go func() { defer w2.Done(); cancel() }()
+				go func() { defer w2.Done(); cancel(); checkGone("the first") }()
+				go func() {
+					defer w2.Done()
+					time.Sleep(time.Duration(c.DelayMs) * time.Millisecond)
+					cancel()
+					checkGone("an overlapping second")
+				}()
 				w2.Wait()
 			case "twice-seq":
 				cancel()
@@ -164,7 +189,9 @@ func scenario(c Case, dir string, scale int) string {
 		}()
 		select {
 		case <-done:
-			return ""
+			earlyMu.Lock()
+			defer earlyMu.Unlock()
+			return early
 		case <-time.After(bound):
 			return fmt.Sprintf("Cancel did not return within %v", bound)
 		}
@@ -437,7 +464,7 @@ func clip(s string, n int) string {
 
 func record(c Case) {
 	drv.Eval(fmt.Sprintf("in-flight=%d", c.K), fmt.Sprintf("waiting=%d", c.W), "phase="+c.Phase, "via="+c.Via, "cancel="+c.Double)
-	drv.NonTrivial(fmt.Sprintf("%d/%d/%s/%s/%s", c.K, c.W, c.Phase, c.Double, c.Via))
+	drv.NonTrivial(fmt.Sprintf("%d/%d/%s/%s/%s/%v", c.K, c.W, c.Phase, c.Double, c.Via, c.Stubborn))
 }
 
 func normalise(c Case) Case {
@@ -459,6 +486,10 @@ func normalise(c Case) Case {
 	}
 	if c.Phase == "after-finish" || c.Phase == "before-run" || c.Phase == "burst" {
 		c.DelayMs = 0
+		c.Stubborn = false
+	}
+	if c.K == 0 || c.Via == "condition" {
+		c.Stubborn = false
 	}
 	return c
 }
@@ -467,14 +498,15 @@ var phases = []string{"before-run", "before-hook", "command", "second-command", 
 
 func genCase(rt *rapid.T) Case {
 	c := Case{
-		K:      rapid.IntRange(0, 4).Draw(rt, "in_flight"),
-		W:      rapid.IntRange(0, 3).Draw(rt, "waiting"),
-		Phase:  rapid.SampledFrom(phases).Draw(rt, "phase"),
-		Double: rapid.SampledFrom([]string{"once", "once", "twice-seq", "twice-conc"}).Draw(rt, "double"),
-		Via:    rapid.SampledFrom([]string{"runner", "scheduler", "scheduler", "condition"}).Draw(rt, "via"),
-		BurstM: rapid.IntRange(1, 120).Draw(rt, "burst_marker"),
-		CondAt: rapid.IntRange(0, 1).Draw(rt, "cond_at"),
-		DelayMs: rapid.SampledFrom([]int{0, 0, 1, 5, 20}).Draw(rt, "delay"),
+		K:        rapid.IntRange(0, 4).Draw(rt, "in_flight"),
+		W:        rapid.IntRange(0, 3).Draw(rt, "waiting"),
+		Phase:    rapid.SampledFrom(phases).Draw(rt, "phase"),
+		Double:   rapid.SampledFrom([]string{"once", "once", "twice-seq", "twice-conc"}).Draw(rt, "double"),
+		Via:      rapid.SampledFrom([]string{"runner", "scheduler", "scheduler", "condition"}).Draw(rt, "via"),
+		BurstM:   rapid.IntRange(1, 120).Draw(rt, "burst_marker"),
+		CondAt:   rapid.IntRange(0, 1).Draw(rt, "cond_at"),
+		DelayMs:  rapid.SampledFrom([]int{0, 0, 1, 5, 20, 50}).Draw(rt, "delay"),
+		Stubborn: rapid.IntRange(0, 3).Draw(rt, "stubborn") == 0,
 	}
 	return normalise(c)
 }
@@ -523,6 +555,16 @@ func TestMatrix(t *testing.T) {
 							cases = append(cases, c)
 						}
 					}
+				}
+			}
+			for _, d := range []string{"once", "twice-conc"} {
+				if k == 0 {
+					continue
+				}
+				c := normalise(Case{K: k, W: w, Phase: "command", Double: d, Via: "runner", Stubborn: true, DelayMs: 50})
+				if !seen[c.canon()] {
+					seen[c.canon()] = true
+					cases = append(cases, c)
 				}
 			}
 			for at := 0; at < 2; at++ {
